@@ -117,4 +117,6 @@ def run(tier):
     rep.ob("emission.display-then-debug-quote", "intern_token::compile format! sites %s" % fmts, "{regex}" in fmts and "{regex_str:?}" in fmts,
            "the pattern is not rendered with Display and then quoted with {:?} into the generated source", key="emission-quoting",
            file="lalrpop/src/lexer/intern_token/mod.rs", line=fm[0]["line"] if fm else 0)
+    from . import dfaconfig
+    dfaconfig.check(rep, f, "dfa-config", "valid tokens are then lexed from the wrong DFA state and rejected as InvalidToken on grammars with many terminals")
     return rep
